@@ -11,7 +11,19 @@ import traceback
 from . import core
 
 
+def _quiet_transitions():
+    """PandoraMachine overrides `may_<trigger>` helpers of the transitions library, which logs one warning per trigger"""
+    import logging
+
+    class _Drop(logging.Filter):
+        def filter(self, record):
+            return "Skip binding of" not in record.getMessage()
+
+    logging.getLogger("transitions.core").addFilter(_Drop())
+
+
 def main(argv=None) -> int:
+    _quiet_transitions()
     ap = argparse.ArgumentParser()
     ap.add_argument("prop")
     ap.add_argument("--tier", default=os.environ.get("VERIF_TIER", "quick"), choices=["quick", "thorough"])
